@@ -11,7 +11,9 @@ ROOT = os.path.dirname(os.path.dirname(os.path.abspath(__file__)))
 LEVEL_NOTE = ("Trusted: Coq 8.16.1 kernel (full .vo build, vm_compute, no native_compute); no axioms declared, "
               "Print Assumptions parsed on every run; the hand-written Gallina model is tied to /repo by the "
               "correspondence harness (Go, build tag verif) on every run; small tables are regenerated from the Go "
-              "source by the go/ast translator genparams; the Go runtime, fmt, sync and time are modelled, not verified. "
+              "source by the go/ast translator genparams, which for internal/csm's node level, quartz/cron.go's firstAfter and "
+              "NextFireTime and quartz/trigger.go translates whole function bodies into Gallina that is proved equal to the model "
+              "on every run (DESIGN.md 11.8); the Go runtime, fmt, sync and time are modelled, not verified. "
               "See DESIGN.md section 3.")
 
 CHECKS = {}   # filled from the MANIFEST dict of each checks/cXX.py
